@@ -30,7 +30,7 @@ def handlers : List (String × (List String → List String → Option Verdict))
   ("md", Driver.C05.md), ("mloop", Driver.C05.mloop),
   ("pl", Driver.C16.pl), ("rl", Driver.C16.rl),
   ("wp", Driver.Wild.wp), ("wperr", Driver.Wild.wperr),
-  ("wd", Driver.Wild.wd), ("wderr", Driver.Wild.wderr),
+  ("wd", Driver.Wild.wd), ("wderr", Driver.Wild.wderr), ("wdstatic", Driver.Wild.wdstatic),
   ("wr", Driver.Wild.wr), ("wrerr", Driver.Wild.wrerr),
   ("cfg", Driver.Config.cfg), ("fuzz", Driver.Config.fuzz),
   ("ra1", Driver.Config.ra1), ("ra3", Driver.Config.ra3), ("ra4", Driver.Config.ra4),
